@@ -257,14 +257,22 @@ def loop_case(rep, rng, sb, tag):
     data, mtime = files[url][pth]
     what = rng.choice(["size", "hash"])
     same_date = rng.random() < 0.5
+    # a server that sends no Last-Modified at all: every fetch round must look at the bytes again, even when
+    # the replaced file has exactly the length of the stale copy
+    no_date = rng.random() < 0.25
     bad_body = break_release(data, what)
     if bad_body == data:
         return None, False
-    if same_date:
-        # same Last-Modified: then the length differs (a file's date or size changes whenever its content does)
-        bad_body = bad_body.replace(b"Origin: sim\n", b"Origin: sim-stale\n", 1)
-    bad = sim.Resp("ok", announced=len(bad_body), date=mtime if same_date else mtime - 7, body=bad_body, chunks=64)
-    faults = {url: {pth: {"first": [bad] * min(k, 40), "rest": "good" if k < 99 else bad}}}
+    good_resp = "good"
+    if no_date:
+        good_resp = sim.Resp("ok", announced=len(data), date=None, body=data, chunks=64)
+        bad = sim.Resp("ok", announced=len(bad_body), date=None, body=bad_body, chunks=64)
+    else:
+        if same_date:
+            # same Last-Modified: then the length differs (a file's date or size changes whenever its content does)
+            bad_body = bad_body.replace(b"Origin: sim\n", b"Origin: sim-stale\n", 1)
+        bad = sim.Resp("ok", announced=len(bad_body), date=mtime if same_date else mtime - 7, body=bad_body, chunks=64)
+    faults = {url: {pth: {"first": [bad] * min(k, 40), "rest": good_resp if k < 99 else bad}}}
     res = P.run_tool(scn, base, faults=faults, upstream_files=files)
     up = res.ups[url.rstrip("/")]
     other = f"dists/{cn}/{'InRelease' if victim == 'Release' else 'Release'}"
@@ -272,7 +280,7 @@ def loop_case(rep, rng, sb, tag):
     ok = res.code == 0
     eff = max(1, retries)
     want_rounds, want_ok = min(k + 1, eff), k < eff
-    jc = {"retries": retries, "k": k, "victim": pth, "what": what, "same_date": same_date, "prior": prior,
+    jc = {"retries": retries, "k": k, "victim": pth, "what": what, "same_date": same_date, "no_date": no_date, "prior": prior,
           "scenario": {"repos": scn.repos, "nthreads": scn.nthreads}}
     rep.case(("loop", retries, min(k, 6), ok, prior, same_date), sample={"retries": retries, "bad_rounds": k, "rounds": rounds, "exit": res.code})
     rep.count(f"loop.ok.{ok}")
